@@ -233,7 +233,7 @@ func formatDurationSRT(i time.Duration) string {
 // WriteToSRT writes subtitles in .srt format
 func (s Subtitles) WriteToSRT(o io.Writer) (err error) {
 	// Do not write anything if no subtitles
-	if len(s.Items) == 0 {
+	if s.Items = nonNilItems(s.Items); len(s.Items) == 0 {
 		err = ErrNoSubtitlesToWrite
 		return
 	}
